@@ -21,23 +21,92 @@ from .py2lean import TranslationError, find_class, find_func, strip_doc, lean_st
 from .common import parse, read, HEADER
 
 
+def _is_lark_call(n) -> bool:
+    return isinstance(n, ast.Call) and ((isinstance(n.func, ast.Name) and n.func.id == "Lark")
+                                        or (isinstance(n.func, ast.Attribute) and n.func.attr == "Lark"))
+
+
+def _single_assignment(scope_bodies, name: str):
+    """the value of the only plain assignment `name = value` among the statements of the given bodies
+    (nested blocks included); None when there is none, TranslationError when there are several"""
+    found = []
+    for body in scope_bodies:
+        for top in body:
+            nodes = [top] if isinstance(top, (ast.FunctionDef, ast.ClassDef)) else ast.walk(top)
+            for n in nodes:
+                if isinstance(n, ast.Assign) and len(n.targets) == 1 and isinstance(n.targets[0], ast.Name) and n.targets[0].id == name:
+                    found.append(n.value)
+                elif isinstance(n, ast.AnnAssign) and isinstance(n.target, ast.Name) and n.target.id == name and n.value is not None:
+                    found.append(n.value)
+                elif isinstance(n, (ast.AugAssign, ast.NamedExpr)) and isinstance(n.target, ast.Name) and n.target.id == name:
+                    raise TranslationError(f"Lark(...): {name} is updated in place")
+    if len(found) > 1:
+        raise TranslationError(f"Lark(...): {name} is assigned {len(found)} times")
+    return found[0] if found else None
+
+
 def lark_call_options() -> Dict[str, str]:
+    """keyword arguments of the one `Lark(...)` call of celparser.py as source text of their values.  The call may
+    sit in `__init__` or in a helper; a value given through a local / class-level / module-level name that is
+    assigned exactly once is replaced by that value, `**name` by the entries of the dict it is bound to"""
     m = parse("src/celpy/celparser.py")
     cls = find_class(m, "CELParser")
-    init = find_func(cls.body, "__init__")
-    calls = [n for n in ast.walk(init) if isinstance(n, ast.Call)
-             and ((isinstance(n.func, ast.Name) and n.func.id == "Lark")
-                  or (isinstance(n.func, ast.Attribute) and n.func.attr == "Lark"))]
-    if len(calls) != 1:
-        raise TranslationError(f"CELParser.__init__: expected exactly one Lark(...) call, found {len(calls)}")
-    call = calls[0]
+    calls = [(f, n) for f in ast.walk(m) if isinstance(f, ast.FunctionDef) for n in ast.walk(f) if _is_lark_call(n)]
+    calls += [(None, n) for top in m.body if not isinstance(top, (ast.FunctionDef, ast.ClassDef)) for n in ast.walk(top) if _is_lark_call(n)]
+    # (a call inside a nested function is seen once per enclosing function: keep the innermost)
+    uniq = {}
+    for f, n in calls:
+        uniq[id(n)] = (f, n) if id(n) not in uniq or (f is not None and uniq[id(n)][0] is not None
+                                                         and f.lineno >= uniq[id(n)][0].lineno) else uniq[id(n)]
+    if len(uniq) != 1:
+        raise TranslationError(f"celparser.py: expected exactly one Lark(...) call, found {len(uniq)}")
+    func, call = next(iter(uniq.values()))
     if len(call.args) != 1:
         raise TranslationError("Lark(...): expected the grammar text as the only positional argument")
-    opts = {}
+    scopes = [func.body] if func is not None else []
+
+    def resolve(e, depth=0):
+        if isinstance(e, ast.Name) and depth < 4:
+            if func is not None and e.id in [a.arg for a in func.args.args + func.args.kwonlyargs]:
+                return e              # a parameter (tree_class)
+            for sc in (scopes, [cls.body], [m.body]):
+                v = _single_assignment(sc, e.id)
+                if v is not None:
+                    return resolve(v, depth + 1)
+            return e
+        if isinstance(e, ast.Attribute) and isinstance(e.value, ast.Name) and e.value.id in ("self", "cls", "CELParser") and depth < 4:
+            v = _single_assignment([cls.body], e.attr)
+            if v is not None:
+                return resolve(v, depth + 1)
+        return e
+
+    opts: Dict[str, str] = {}
+
+    def put(k, v):
+        if k in opts:
+            raise TranslationError(f"Lark(...): option {k} given twice")
+        opts[k] = ast.unparse(resolve(v))
     for kw in call.keywords:
-        if kw.arg is None:
-            raise TranslationError("Lark(...): **kwargs not supported")
-        opts[kw.arg] = ast.unparse(kw.value)
+        if kw.arg is not None:
+            put(kw.arg, kw.value)
+            continue
+        d = resolve(kw.value)
+        if isinstance(kw.value, ast.Name):
+            # a dict is mutable: the name may only occur where it is bound and where it is passed on
+            uses = [n for n in ast.walk(m) if isinstance(n, ast.Name) and n.id == kw.value.id]
+            if len(uses) != 2:
+                raise TranslationError(f"Lark(...): **{kw.value.id} is used in {len(uses)} places (expected: bound once, passed once)")
+        elif not isinstance(kw.value, (ast.Dict, ast.Call)):
+            raise TranslationError("Lark(...): **" + ast.unparse(kw.value) + " outside the subset")
+        if isinstance(d, ast.Dict) and all(isinstance(k, ast.Constant) and isinstance(k.value, str) for k in d.keys):
+            for k, v in zip(d.keys, d.values):
+                put(k.value, v)
+        elif isinstance(d, ast.Call) and isinstance(d.func, ast.Name) and d.func.id == "dict" and not d.args \
+                and all(k.arg is not None for k in d.keywords):
+            for k in d.keywords:
+                put(k.arg, k.value)
+        else:
+            raise TranslationError("Lark(...): **" + ast.unparse(kw.value) + " is not bound to a dict display")
     return opts
 
 
@@ -384,6 +453,58 @@ def build_lark(opts: Dict[str, str]):
     return p, cap.records
 
 
+def canon_regex(pattern: str, flags: int) -> str:
+    """the regular expression as Python's own parser reads it, rendered canonically: character classes as sorted
+    code-point sets (so `[ \\t\\n\\f\\r]+`, `[\\t\\n\\x0c\\r ]+`, `(?:[\\t-\\n]|\\f|\\r| )+` are one text), escapes resolved
+    (`\\/\\/.*` = `//.*`); `.` is rendered with the DOTALL flag that applies"""
+    sp = re._parser
+    c = re._constants
+    try:
+        tree = sp.parse(pattern, flags)
+    except Exception as ex:
+        raise TranslationError(f"regular expression {pattern!r} does not parse: {ex}")
+    eff = tree.state.flags | flags
+
+    def one(op, av) -> str:
+        if op is c.LITERAL:
+            return f"set{{{av}}}" if not (eff & re.I) else f"iset{{{av}}}"
+        if op is c.ANY:
+            return "any" if eff & re.S else "any-but-newline"
+        if op is c.NOT_LITERAL and av == 10 and not (eff & re.I):
+            return "any-but-newline"          # `[^\\n]` is what `.` means without DOTALL
+        if op is c.IN:
+            pts = set()
+            for o2, a2 in av:
+                if o2 is c.LITERAL:
+                    pts.add(a2)
+                elif o2 is c.RANGE and a2[1] - a2[0] < 512:
+                    pts.update(range(a2[0], a2[1] + 1))
+                else:
+                    return "in[" + ",".join(f"{o3}:{a3}" for o3, a3 in av) + "]"
+            return ("iset{" if eff & re.I else "set{") + ",".join(str(x) for x in sorted(pts)) + "}"
+        if op in (c.MAX_REPEAT, c.MIN_REPEAT):
+            lo, hi, sub = av
+            his = "inf" if hi is c.MAXREPEAT else str(hi)
+            return ("rep" if op is c.MAX_REPEAT else "lazyrep") + f"({lo},{his})" + seq(sub)
+        if op is c.SUBPATTERN:
+            g, add, dele, sub = av
+            if add or dele:
+                return f"group-with-flags({add},{dele})" + seq(sub)
+            return seq(sub) if len(sub) != 1 else one(*sub[0])      # capturing or not: lark only uses the whole match
+        if op is c.BRANCH:
+            alts = [seq(x) for x in av[1]]
+            # single-character alternatives are a character class
+            if all(re.fullmatch(r"\[set\{[0-9,]*\}\]", x) for x in alts):
+                pts = sorted({int(n) for x in alts for n in re.findall(r"\d+", x)})
+                return "set{" + ",".join(map(str, pts)) + "}"
+            return "alt(" + "|".join(alts) + ")"
+        return f"{op}:{av}"
+
+    def seq(items) -> str:
+        return "[" + " ".join(one(op, av) for op, av in items) + "]"
+    return seq(tree)
+
+
 def grammar_facts() -> Dict[str, Any]:
     import lark
     opts = lark_call_options()
@@ -426,6 +547,14 @@ def grammar_facts() -> Dict[str, Any]:
     kept = sorted(kept_names)
     ignore = sorted(p.lexer_conf.ignore if hasattr(p, "lexer_conf") else p.ignore_tokens)
     ignore_pat = [(n, tn[n].pattern.to_regexp()) for n in ignore]
+    gflags = int(p.options.g_regex_flags or 0)
+    ignore_canon = []
+    for n in ignore:
+        pat = tn[n].pattern
+        fl = gflags
+        for ch in getattr(pat, "flags", ()) or ():
+            fl |= {"i": re.I, "m": re.M, "s": re.S, "x": re.X, "u": re.U, "l": re.L}.get(ch, 0)
+        ignore_canon.append((n, canon_regex(pat.value if isinstance(pat, lark.lexer.PatternRE) else re.escape(pat.value), fl)))
     prio = sorted((t.name if t.name in kept_names or t.name in ignore else tsrc_any(t.name), t.priority) for t in p.terminals)
     # string terminals the IDENT regex matches as a whole (lark's "unless" mechanism retypes these)
     ident = tn.get("IDENT")
@@ -447,7 +576,7 @@ def grammar_facts() -> Dict[str, Any]:
         if "IDENT" in acc:
             sets.add(tuple(sorted(tsrc_any(a) for a in acc)))
     conflicts = [m for m in log if "conflict" in m.lower()]
-    return {"opts": opts, "prods": prods, "inline": inline, "kept": kept, "ignore": ignore, "ignore_pat": ignore_pat, "prio": prio,
+    return {"opts": opts, "prods": prods, "inline": inline, "kept": kept, "ignore": ignore, "ignore_pat": ignore_pat, "ignore_canon": ignore_canon, "prio": prio,
             "words": words, "accept": sorted(sets), "conflicts": conflicts, "lexer": str(p.options.lexer),
             "start": list(p.options.start)}
 
@@ -458,7 +587,8 @@ def gen_grammar() -> str:
     o = f["opts"]
     cb = o.get("lexer_callbacks", "{}")
     # the callback table must attach ambiguous_literals to IDENT
-    cbm = re.fullmatch(r"\{\s*'IDENT'\s*:\s*(?:self|CELParser|cls)\.ambiguous_literals\s*\}", cb)
+    cbm = re.fullmatch(r"(?:\{\s*'IDENT'\s*:\s*(?:self|CELParser|cls|type\(self\))\.ambiguous_literals\s*\}"
+                       r"|dict\(IDENT=(?:self|CELParser|cls|type\(self\))\.ambiguous_literals\))", cb)
     out = [HEADER.format(src="src/celpy/cel.lark (compiled by lark), src/celpy/celparser.py (Lark(...) options, ambiguous_literals)"),
            "namespace Cel.Gen.Grammar\n"]
     out.append("/-- BNF productions after lark's EBNF expansion: (rule, right-hand side); anonymous terminals quoted -/")
@@ -471,6 +601,8 @@ def gen_grammar() -> str:
     out.append("def ignored : List String := " + lean_list([lean_str(s) for s in f["ignore"]]))
     out.append("/-- the regular expressions of the ignored terminals -/")
     out.append("def ignoredPatterns : List (String × String) := " + lean_list([f"({lean_str(a)}, {lean_str(b)})" for a, b in f["ignore_pat"]]))
+    out.append("/-- the same, as Python's regex parser reads them (character classes as sorted code points) -/")
+    out.append("def ignoredPatternsCanon : List (String × String) := " + lean_list([f"({lean_str(a)}, {lean_str(b)})" for a, b in f["ignore_canon"]]))
     out.append("def terminalPriorities : List (String × Int) := " + lean_list([f"({lean_str(n)}, {pr})" for n, pr in f["prio"]]))
     out.append("/-- string terminals matched as a whole by the IDENT regex -/")
     out.append("def wordStrTerminals : List (String × String) := " + lean_list([f"({lean_str(a)}, {lean_str(b)})" for a, b in f["words"]]))
